@@ -73,6 +73,9 @@ impl<K: Eq + Hash + Clone> SingleFlight<K> {
             Err(notify) => {
                 let result = work();
 
+                #[cfg(feature = "verif")]
+                crate::verif::thread_point("sf_after_work");
+
                 let mut shard = self.map.write_shard(shard_index);
                 shard.remove(key);
 
